@@ -108,6 +108,18 @@ def check(facts, rep, tier, cfg):
             rep.ok("C06.R2", k, i["where"], i["detail"])
         if k.startswith("cell/Reset/") or k.endswith("/absent") or k == "cell/Push/no-taker":
             rep.ok("C06.R4", k, i["where"], i["detail"])
+    # slot life cycle: a slot enters / leaves the flow table exactly in the cells the protocol gives (a slot freed while the
+    # local handle is alive lets the id be re-used and the old handle's drop notification abort the new stream; a slot kept
+    # after both ends let go is a leak)
+    rep.rule("C06.R8", "slot life cycle: the Connect / Acknowledge / Finish reactions insert, establish, keep and remove slots exactly as the reaction table says (reaction-table cells)")
+    life = ("cell/Connect/", "cell/Acknowledge/", "cell/Finish/")
+    for i in sub.instances:
+        if i["key"].startswith(life):
+            rep.ok("C06.R8", i["key"], i["where"], i["detail"])
+    for v in sub.violations:
+        k = v["key"].split("/", 1)[1]
+        if k.startswith(life):
+            rep.bad("C06.R8", k, v["where"], v["msg"])
     for v in sub.violations:
         k = v["key"].split("/", 1)[1]
         if k in ("cell/Reset/Established", "cell/Push/overrun"):
